@@ -237,6 +237,194 @@ def oracle_safe(case):
         return ("oracle crashed: %r" % (ex,), "")
 
 
+# ----------------------------------------------------------------------------- encoding assignment histories
+def all_codec_names():
+    """every codec name the interpreter knows: modules of the encodings package, alias keys and values
+    (text codecs, non-text codecs such as rot13/hex/base64, special ones such as undefined/idna/css)"""
+    import encodings
+    import encodings.aliases
+    import pkgutil
+    names = set(encodings.aliases.aliases) | set(encodings.aliases.aliases.values())
+    names |= {m.name for m in pkgutil.iter_modules(encodings.__path__) if m.name != "aliases"}
+    return sorted(names | {"css", "utf-8", "latin-1", "utf-8-sig", "utf-16-le", "utf-32-be"})
+
+
+ODD_NAMES = ["", " ", "a b", '"ascii"', "1x", "utf-8;", "utf 8", "\xe9", "utf-9", "no-such-codec", "ascii\n", "x" * 40,
+             "-", "@charset", "ascii/*c*/", "url(x)", "\\61 scii", "u\\tf-8", "ASCII ", "0", "None"]
+_KIND = {}
+
+
+def codec_kind(name):
+    """'reparse' = inside the property's quantifier (ASCII-transparent header, or the BOM family): the bytes must parse
+    back;  'text' = a text codec outside it (EBCDIC, utf-7 ...): bytes, decode and @charset only;  None = not usable"""
+    if name in _KIND:
+        return _KIND[name]
+    kind = None
+    try:
+        head = '@charset "%s"; a{}' % name.lower()
+        b = head.encode(name, "escapecss")
+        if isinstance(b, bytes) and b.decode(name) == head:
+            ci = codecs.lookup(name)
+            if ci.name in [codecs.lookup(x).name for x in BOM_FAMILY] or b == head.encode("ascii"):
+                kind = "reparse"
+            else:
+                kind = "text"
+    except Exception:  # noqa
+        kind = None
+    _KIND[name] = kind
+    return kind
+
+
+def sheet_state(sh):
+    """what a refused assignment must leave unchanged"""
+    try:
+        b = sh.cssText
+    except Exception as ex:  # noqa
+        b = "RAISES " + type(ex).__name__
+    return (sh.encoding, b, [r.type for r in sh.cssRules])
+
+
+def sheet_invariant(cp, sh, m_rules):
+    """the property for the encoding the sheet reports NOW.  m_rules = extracted model of the non-charset rules."""
+    from css_parser import _codec3
+    enc = sh.encoding
+    has_rule = bool(len(sh.cssRules)) and sh.cssRules[0].type == sh.cssRules[0].CHARSET_RULE
+    if not isinstance(enc, str) or not enc:
+        return ("sheet.encoding is not an encoding name", repr(enc))
+    if not has_rule and enc != "utf-8":
+        return ("sheet without an @charset rule does not report the utf-8 default", repr(enc))
+    try:
+        b = sh.cssText
+    except Exception as ex:  # noqa
+        return ("sheet.cssText raises %s for the encoding the sheet reports" % type(ex).__name__,
+                "%s: %s" % (enc, str(ex)[:100]))
+    if not isinstance(b, bytes):
+        return ("cssText is not a byte string", type(b).__name__)
+    try:
+        d = b.decode(enc)
+    except Exception as ex:  # noqa
+        return ("cssText does not decode under the encoding the sheet reports", "%s: %s" % (enc, str(ex)[:100]))
+    head = '@charset "%s";' % enc
+    if has_rule and not d.startswith(head):
+        return ("output does not begin with the @charset rule naming the encoding", "%s: %r" % (enc, d[:40]))
+    if not has_rule and d.startswith("@charset"):
+        return ("output of a sheet without an @charset rule begins with one", d[:40])
+    m1 = extract(sh)
+    if [r for r in m1 if r["type"] != 2] != m_rules:
+        return ("an encoding assignment changed the other rules", "")
+    if codec_kind(enc) != "reparse":
+        return None
+    try:
+        det = _codec3.detectencoding_str(b, True)[0]
+        if norm_enc(det) != norm_enc(enc):
+            return ("parsing the bytes back detects another encoding", "%s detected as %s" % (enc, det))
+        m2 = extract(cp.parseString(b))
+    except Exception as ex:  # noqa
+        return ("re-parsing the encoded bytes raised %s" % type(ex).__name__, "%s: %s" % (enc, str(ex)[:100]))
+    if has_rule and (not m2 or m2[0].get("encoding") is None or norm_enc(m2[0]["encoding"]) != norm_enc(enc)):
+        return ("re-parsed sheet does not carry the encoding", "%s: %r" % (enc, m2[:1]))
+    if [r for r in m2 if r["type"] != 2] != m_rules:
+        return ("re-parsed object model differs", "%s: %s" % (enc, json.dumps([m_rules, m2], ensure_ascii=True)[:300]))
+    return None
+
+
+def history_oracle(case):
+    """case = (source, [assigned names (None = remove)], raise mode).  After EVERY assignment, accepted or refused,
+    the property must hold for the encoding the sheet reports; a refused assignment changes nothing."""
+    src, names, rx = case
+    cp = quiet()
+    try:
+        sh = cp.parseString(src)
+        m_rules = [r for r in extract(sh) if r["type"] != 2]
+        cp.log.raiseExceptions = bool(rx)
+        r = sheet_invariant(cp, sh, m_rules)
+        if r:
+            return ("SKIP", "initial sheet: " + r[0])
+        for k, name in enumerate(names):
+            before = sheet_state(sh)
+            raised = None
+            try:
+                sh.encoding = name
+            except Exception as ex:  # noqa
+                raised = type(ex).__name__
+            where = "after assignment %d (%r%s, raiseExceptions=%s)" % (k, name, " -> " + raised if raised else "", bool(rx))
+            after = sheet_state(sh)
+            if name is None:
+                accepted = raised is None
+                if accepted and (after[0] != "utf-8" or 2 in after[2]):
+                    return ("encoding = None did not remove the @charset rule", where)
+            else:
+                try:
+                    accepted = raised is None and codecs.lookup(after[0]).name == codecs.lookup(name).name \
+                        and (before[0] != after[0] or codec_kind(name) is not None)
+                except Exception:  # noqa
+                    accepted = False
+                if raised is None and rx and not accepted and codec_kind(name) is not None and isinstance(name, str) \
+                        and re.fullmatch(r"[A-Za-z_][A-Za-z0-9_-]*", name):
+                    return ("a usable encoding was silently not assigned", where)
+            if accepted and name is not None and codec_kind(name) is None:
+                return ("an encoding the serializer cannot write was accepted", where)
+            if not accepted and after != before:
+                return ("a refused encoding assignment changed the sheet",
+                        "%s: encoding %r -> %r, cssText %s" % (where, before[0], after[0],
+                                                              "unchanged" if before[1] == after[1] else
+                                                              "%r -> %r" % (before[1][:40], after[1][:40])))
+            r = sheet_invariant(cp, sh, m_rules)
+            if r:
+                return (r[0], where + ": " + r[1])
+        return None
+    finally:
+        cp.log.raiseExceptions = False
+
+
+def history_safe(case):
+    try:
+        return history_oracle(case)
+    except Exception as ex:  # noqa
+        import traceback
+        return ("history oracle crashed: %r" % (ex,), traceback.format_exc()[-300:])
+
+
+HIST_SHEETS = ["a{x:1}", '@charset "latin-1"; a{x:1}', '@charset "ascii";\n/*\xe9*/ #gr\xf6\xdfe{content:"x€ y"}',
+               '/* c\xe4 € */ a.b€{content:"\xe4";background:url(b\xe4.png)} @\xe9 x;', "",
+               '@charset "utf-8"; @import "\xe9"; a{x:1}', '@charset "koi8-r";', "/*c*/"]
+
+
+def odd_case(rng, n):
+    return "".join(c.upper() if rng.random() < 0.5 else c.lower() for c in n).replace("_", rng.choice("_-"))
+
+
+def gen_histories(rng, n_random):
+    names = all_codec_names()
+    out = []
+    # exhaustive part: every known name (and every odd one), once as the only assignment and once after a good
+    # one, on a sheet with and without an @charset rule, in both modes
+    for nm in names + ODD_NAMES:
+        for src in HIST_SHEETS[:3]:
+            for rx in (1, 0):
+                out.append((src, [nm], rx))
+        out.append((HIST_SHEETS[3], ["koi8-r", nm, "ascii"], 1))
+    n_exh = len(out)
+    for _ in range(n_random):
+        k = rng.randint(1, 4)
+        seq = []
+        for _ in range(k):
+            r = rng.random()
+            if r < 0.55:
+                nm = rng.choice(names)
+                if rng.random() < 0.4:
+                    nm = odd_case(rng, nm)
+            elif r < 0.8:
+                nm = rng.choice(QUICK_CODECS + BOM_FAMILY)
+            elif r < 0.93:
+                nm = rng.choice(ODD_NAMES)
+            else:
+                nm = None
+            seq.append(nm)
+        out.append((rng.choice(HIST_SHEETS), seq, rng.choice([1, 1, 0])))
+    return out, n_exh
+
+
 # ----------------------------------------------------------------------------- codec hypotheses
 def codec_facts(e):
     """validate the Section hypotheses for codec e over ALL code points; returns a dict"""
